@@ -518,6 +518,13 @@ where
         self.started_at
     }
 
+    /// Verification hook H4: the timestamp of the cached inventory announcement, and the
+    /// last timestamp handed out for an announcement.
+    #[cfg(feature = "verif")]
+    pub fn verif_timestamps(&self) -> (Timestamp, Timestamp) {
+        (self.inventory.timestamp, self.last_timestamp)
+    }
+
     /// Return the next i/o action to execute.
     #[allow(clippy::should_implement_trait)]
     pub fn next(&mut self) -> Option<io::Io> {
